@@ -1,6 +1,8 @@
 import Driver.Loop
 import Driver.SdlCodec
 import PyGqlModel.SdlPrint
+import PyGqlModel.SdlText
+import PyGqlModel.ParseJson
 open PyGql PyGql.Sdl PyGql.SdlPrint
 
 def appsOfJson (j : J) : Apps :=
@@ -19,6 +21,19 @@ def handleC12 (j : J) : J :=
       let wl : Option (List String) := match c.get? "whitelist" with | some (.arr a) => some (a.filterMap J.asStr?) | _ => none
       (({ indent := c.strD "indent", descriptions := c.boolD "descriptions", custom := c.boolD "custom", whitelist := wl } : Opts), s, a)
     .obj [("texts", .arr ((runHistory st calls).map .str))]
+  | "printT" =>
+    -- the second (total, Text-based) model of the printer, the first model on the same input, the lexical
+    -- well-formedness predicate and the text-level statement `parse(printSchemaT s) = tree of the denoted document`
+    let s := Driver.schemaOfJson (j.getD "schema")
+    let ind := j.strD "indent"
+    let o : SdlPrintT.OptsT := { indent := textOfString ind, descriptions := j.boolD "descriptions" }
+    let t := SdlPrintT.printSchemaT o s
+    let first := (printSchema { indent := ind, descriptions := j.boolD "descriptions" } s [] initialCollection).1
+    let parses := match SdlText.parseSdlTextT t, SdlText.docToAst (SdlText.printedDoc s) with
+      | some a, some b => a.toJson.render == b.toJson.render
+      | _, _ => false
+    .obj [("text", .str (stringOfText t)), ("same", .bool (stringOfText t == first)),
+          ("wf", .bool (SdlText.printTextWF o s)), ("parses", .bool parses)]
   | _ => .obj [("error", .str "bad-op")]
 
 def main : IO Unit := Driver.run handleC12
